@@ -23,19 +23,29 @@ def main(c):
         lines.append("drbg %s %s" % (",".join(map(str, seq)), ent(40)))
     # entropy failure at each of its calls: instantiation, any reseed (error, EOF, open failure), then further calls
     for k in range(0, 4):
-        for kind in ("x", "e", "o"):
+        for kind in ("x", "e", "o", "i", "s20,i", "s20,x", "s47,e"):
             seq = [32] * 300 + [1, 70000, 32]
             e = ["f"] * 8
             e[k] = kind
             lines.append("drbg %s %s" % (",".join(map(str, seq)), ",".join(e)))
             lines.append("drbg %s %s" % (",".join(map(str, [5, 5, 5])), ",".join(e)))
+    # generate calls are what the reseed interval counts: empty requests count for nothing, a request of k x 65536 bytes for k
+    for _ in range(c.pick(2, 12)):
+        seq = [rnd.choice([0, 0, 0, 32, 1]) for _ in range(rnd.choice([300, 520]))] + [32] * 130
+        lines.append("drbg %s %s" % (",".join(map(str, seq)), ent(40)))
+    for big in (131073, 196608, 65537):
+        seq = [1] * rnd.choice([249, 250, 251]) + [big] + [1] * 9 + [65537, 0, 1, 1]
+        lines.append("drbg %s %s" % (",".join(map(str, seq)), ent(12)))
+    if not c.quick:
+        seq = [65537] * 126 + [32] * 6 + [131073] + [32] * 3
+        lines.append("drbg %s %s" % (",".join(map(str, seq)), ent(12)))
     # short reads in the middle of a seed
     for _ in range(c.pick(5, 50)):
         lines.append("drbg %s %s" % (",".join(["32"] * 260), ",".join(rnd.choice(["s1", "s7", "s31", "s47", "f"]) for _ in range(30))))
     c.cov["calls"] = len(lines)
     g.run(c, exe, lines, "drbg", per=2, tv_timeout=1700)
     c.cov["rule"] = ("sequences of request sizes over {0, 1, 31, 32, 33, 100, 65535, 65536, 65537, 70000, 131072, 131073}; runs of 257..800 requests crossing several "
-                     "reseed intervals; the OS entropy source scripted at the open/read level (full reads, short reads of 1..47 bytes, read error, EOF, open failure) "
+                     "reseed intervals; the OS entropy source scripted at the open/read level (full reads, short reads of 1..47 bytes, read error EIO / EINTR also after a short read, EOF, open failure); empty requests and requests of several 65536-byte pieces counted against the reseed interval; "
                      "with a failure at each of its first four requests followed by further calls; every read re-run by TLC in Drbg.tla (HMAC in TLA+ over the JDK "
                      "SHA-256 primitive): byte-exact output, entropy asked exactly when and as much as specified, failure exactly when the source failed; "
                      "an execution = 2 scenarios, each in a forked child")
